@@ -1,0 +1,25 @@
+//go:build verif
+
+package tbtc
+
+import (
+	"github.com/keep-network/keep-core/pkg/chain"
+	"github.com/keep-network/keep-core/pkg/protocol/group"
+)
+
+// VerifFinalSigningGroup exposes finalSigningGroup (property C08).
+func VerifFinalSigningGroup(
+	selectedOperators []chain.Address,
+	operatingMembersIndexes []group.MemberIndex,
+	groupParameters *GroupParameters,
+) (
+	[]chain.Address,
+	map[group.MemberIndex]group.MemberIndex,
+	error,
+) {
+	return finalSigningGroup(
+		selectedOperators,
+		operatingMembersIndexes,
+		groupParameters,
+	)
+}
